@@ -183,8 +183,33 @@ func specEq(a, b JsonNode, options []Option) bool {
 		return ok && specEqList(x, y, options)
 	case jsonArray:
 		return specEq(specDispatch(x, options), b, options)
+	case jsonSet:
+		y, ok := specDispatch(b, options).(jsonSet)
+		return ok && specSubset(x, y, options) && specSubset(y, x, options)
+	case jsonMultiset:
+		y, ok := specDispatch(b, options).(jsonMultiset)
+		return ok && len(x) == len(y) &&
+			forallInt(0, len(x), func(i int) bool { return specCount(x, x[i], options) == specCount(y, x[i], options) })
 	}
 	return false
+}
+
+// specSubset: every member of x has an equal member in y.
+func specSubset(x, y []JsonNode, options []Option) bool {
+	return forallInt(0, len(x), func(i int) bool {
+		return existsInt(0, len(y), func(j int) bool { return specEq(x[i], y[j], options) })
+	})
+}
+
+// specCount: how many members of l equal v.
+func specCount(l []JsonNode, v JsonNode, options []Option) int {
+	if len(l) == 0 {
+		return 0
+	}
+	if specEq(l[0], v, options) {
+		return 1 + specCount(l[1:], v, options)
+	}
+	return specCount(l[1:], v, options)
 }
 
 func specEqList(x, y []JsonNode, options []Option) bool {
@@ -361,4 +386,31 @@ func specRemoveInv(l0, l, rm0, rm []JsonNode, i int) bool {
 		forallInt(0, i, func(j int) bool { return same(l[j], l0[j]) }) &&
 		forallInt(i, len(l), func(j int) bool { return same(l[j], l0[j+k]) }) &&
 		forallInt(0, k, func(j int) bool { return specEq(l0[i+j], rm0[j], nil) })
+}
+
+// specIsSetKind: the node is an array already typed as set or multiset (such values only exist
+// transiently inside the library, produced by dispatch).
+func specIsSetKind(n JsonNode) bool {
+	switch n.(type) {
+	case jsonSet, jsonMultiset:
+		return true
+	}
+	return false
+}
+
+// specIsContainer: object or array of any kind.
+func specIsContainer(n JsonNode) bool {
+	switch n.(type) {
+	case jsonObject, jsonArray, jsonList, jsonSet, jsonMultiset:
+		return true
+	}
+	return false
+}
+
+func validHunk(de DiffElement) bool {
+	return validPath(de.Path) && validNodes(de.Before) && validNodes(de.Remove) && validNodes(de.Add) && validNodes(de.After)
+}
+
+func validDiff(d Diff) bool {
+	return forallInt(0, len(d), func(i int) bool { return validHunk(d[i]) })
 }
